@@ -17,26 +17,16 @@ pub mod h1x {
       relation r6(i64, i64);
       relation r7(i64, i64, i64);
       relation r8(i64);
-      r6(v3, v2) <-- r0(v0, v1), r7(v2, v102, v100), if (v100.clone() < 1), r7(v3, v103, v101), if (v101.clone() < 1);
-      r6(3, std::cmp::min(std::cmp::min(v1.clone(), 2), 6)) <-- r4(v0, v105), r7(v1, v106, v104), if (v104.clone() < 1), if (v1.clone() < 5);
-      r7(std::cmp::min(std::cmp::min(v1.clone(), 2), 6), std::cmp::min(std::cmp::min(v1.clone(), 2), 6), std::cmp::min(std::cmp::min(v1.clone(), 2), 6)) <-- r4(v0, v105), r7(v1, v106, v104), if (v104.clone() < 1), if (v1.clone() < 5);
-      r8((v1.clone() + 1)) <-- r4(v0, v105), r7(v1, v106, v104), if (v104.clone() < 1), if (v1.clone() < 5);
-      r6(3, std::cmp::min(std::cmp::min(v1.clone(), 2), 6)) <-- r4(v0, v107), r2(v1), if (v1.clone() < 5);
-      r7(std::cmp::min(std::cmp::min(v1.clone(), 2), 6), std::cmp::min(std::cmp::min(v1.clone(), 2), 6), std::cmp::min(std::cmp::min(v1.clone(), 2), 6)) <-- r4(v0, v107), r2(v1), if (v1.clone() < 5);
-      r8((v1.clone() + 1)) <-- r4(v0, v107), r2(v1), if (v1.clone() < 5);
-      r6(v0, v0) <-- r2(v0), r7(v109, v110, v108) if (v109.clone() == v0.clone()), if (v108.clone() < 1);
-      r7(v0, v0, v0) <-- r7(v0, v112, v111), if (v111.clone() < 1);
-      r6(3, std::cmp::min(std::cmp::max(v0.clone(), 1), 6)) <-- r7(v0, v114, v115) if (v114.clone() == v0.clone()) if (v115.clone() == v0.clone()) if (v0.clone() == 3) let v1 = std::cmp::min(std::cmp::max(v0.clone(), 3), 6), r3(v113, v116, v2) if (v116.clone() == 3), if (v0.clone() < 3), if ((v0.clone() + 1) < 2);
-      r7(std::cmp::min(std::cmp::max(v0.clone(), 1), 6), std::cmp::min(std::cmp::max(v0.clone(), 1), 6), std::cmp::min(std::cmp::max(v0.clone(), 1), 6)) <-- r7(v0, v114, v115) if (v114.clone() == v0.clone()) if (v115.clone() == v0.clone()) if (v0.clone() == 3) let v1 = std::cmp::min(std::cmp::max(v0.clone(), 3), 6), r3(v113, v116, v2) if (v116.clone() == 3), if (v0.clone() < 3), if ((v0.clone() + 1) < 2);
-      r7(v2, v1, v0) <-- r7(v0, v114, v115) if (v114.clone() == v0.clone()) if (v115.clone() == v0.clone()) if (v0.clone() == 3) let v1 = std::cmp::min(std::cmp::max(v0.clone(), 3), 6), r3(v113, v116, v2) if (v116.clone() == 3), if (v0.clone() < 3), if ((v0.clone() + 1) < 2);
-      r6(3, std::cmp::min(std::cmp::max(v0.clone(), 1), 6)) <-- r7(v0, v117, v118) if (v117.clone() == v0.clone()) if (v118.clone() == v0.clone()) if (v0.clone() == 3) let v1 = std::cmp::min(std::cmp::max(v0.clone(), 3), 6), r0(v119, v2) if (v119.clone() == v0.clone()), if ((v0.clone() + 1) < 2);
-      r7(std::cmp::min(std::cmp::max(v0.clone(), 1), 6), std::cmp::min(std::cmp::max(v0.clone(), 1), 6), std::cmp::min(std::cmp::max(v0.clone(), 1), 6)) <-- r7(v0, v117, v118) if (v117.clone() == v0.clone()) if (v118.clone() == v0.clone()) if (v0.clone() == 3) let v1 = std::cmp::min(std::cmp::max(v0.clone(), 3), 6), r0(v119, v2) if (v119.clone() == v0.clone()), if ((v0.clone() + 1) < 2);
-      r7(v2, v1, v0) <-- r7(v0, v117, v118) if (v117.clone() == v0.clone()) if (v118.clone() == v0.clone()) if (v0.clone() == 3) let v1 = std::cmp::min(std::cmp::max(v0.clone(), 3), 6), r0(v119, v2) if (v119.clone() == v0.clone()), if ((v0.clone() + 1) < 2);
-      r7(v1, v1, v0) <-- r8(v0), r3(v120, v122, v1) if (v122.clone() == 3), if (v0.clone() < 3), if ((v0.clone() + 0) < 2), r3(v121, v123, v2) if (v123.clone() == 3), if (v1.clone() < 3), if ((v0.clone() + v1.clone()) < 2);
-      r7(v1, v1, v0) <-- r8(v0), r3(v120, v124, v1) if (v124.clone() == 3), if (v0.clone() < 3), if ((v0.clone() + 0) < 2), r0(v125, v2) if (v125.clone() == v1.clone()), if ((v0.clone() + v1.clone()) < 2);
-      r7(v1, v1, v0) <-- r8(v0), r0(v126, v1) if (v126.clone() == v0.clone()), if ((v0.clone() + 0) < 2), r3(v121, v127, v2) if (v127.clone() == 3), if (v1.clone() < 3), if ((v0.clone() + v1.clone()) < 2);
-      r7(v1, v1, v0) <-- r8(v0), r0(v128, v1) if (v128.clone() == v0.clone()), if ((v0.clone() + 0) < 2), r0(v129, v2) if (v129.clone() == v1.clone()), if ((v0.clone() + v1.clone()) < 2);
-      r5(v0) <-- r3(v130, v0, v131) if (v131.clone() == 3);
+      r7(std::cmp::min(std::cmp::max(v1.clone(), 0), 6), std::cmp::min(std::cmp::max(v1.clone(), 0), 6), std::cmp::min(std::cmp::max(v1.clone(), 0), 6)) <-- r2(v0), r7(v1, v101, v100), if (v100.clone() < 1);
+      r7(v2, 0, v0) <-- r6(v0, v1), r7(v2, v104, v102), if (v102.clone() < 1), r7(v105, v106, v103) if (v105.clone() == v2.clone()), if (v103.clone() < 1);
+      r7(v2, 0, v0) <-- r6(v0, v1), r0(v4, v2), r7(v107, v108, v103) if (v107.clone() == v2.clone()), if (v103.clone() < 1);
+      r8(v0) <-- r6(v0, v1), r7(v2, v110, v109), if (v109.clone() < 1);
+      r8(v0) <-- r6(v0, v1), r6(v4, v2);
+      r8((v1.clone() + 1)) <-- r5(v0) if (v0.clone() <= 1), r3(v111, v113, v1) if (v113.clone() == 3), if (v0.clone() < 3), if (std::cmp::max(v0.clone(), 3) < 2), r3(v112, v114, v2) if (v114.clone() == 3), if (v0.clone() < 3), if (std::cmp::max(v1.clone(), 3) < 2), if (v1.clone() < 5);
+      r8((v1.clone() + 1)) <-- r5(v0) if (v0.clone() <= 1), r3(v111, v115, v1) if (v115.clone() == 3), if (v0.clone() < 3), if (std::cmp::max(v0.clone(), 3) < 2), r0(v116, v2) if (v116.clone() == v0.clone()), if (std::cmp::max(v1.clone(), 3) < 2), if (v1.clone() < 5);
+      r8((v1.clone() + 1)) <-- r5(v0) if (v0.clone() <= 1), r0(v117, v1) if (v117.clone() == v0.clone()), if (std::cmp::max(v0.clone(), 3) < 2), r3(v112, v118, v2) if (v118.clone() == 3), if (v0.clone() < 3), if (std::cmp::max(v1.clone(), 3) < 2), if (v1.clone() < 5);
+      r8((v1.clone() + 1)) <-- r5(v0) if (v0.clone() <= 1), r0(v119, v1) if (v119.clone() == v0.clone()), if (std::cmp::max(v0.clone(), 3) < 2), r0(v120, v2) if (v120.clone() == v0.clone()), if (std::cmp::max(v1.clone(), 3) < 2), if (v1.clone() < 5);
+      r5(v0) <-- r3(v121, v0, v122) if (v122.clone() == 3);
       r7(1, 1, 1);
    }
    pub struct Inst { p: Prog, pool: Option<ascent::rayon::ThreadPool> }
@@ -81,35 +71,32 @@ pub mod h5x {
       relation r1(i64, Option<i64>);
       relation r2(i64);
       relation r3(i64, i64, i64);
-      relation r4(i64);
-      relation r5(i64, i64);
-      relation r6(i64, i64);
-      relation r7(i64, i64);
-      r5(2, v0) <-- r2(v0) if (v0.clone() < 5), r2(v100) if (v100.clone() == v0.clone()), r6(v101, v102) if (v101.clone() == v0.clone()) if (v102.clone() == (v0.clone() + 2)), r2(v1), r6(v103, v104) if (v103.clone() == v1.clone()) if (v104.clone() == (v1.clone() + 2));
-      r5(3, std::cmp::min(std::cmp::max(v1.clone(), 0), 6)) <-- r2(v0) if (v0.clone() < 5), r2(v100) if (v100.clone() == v0.clone()), r6(v101, v102) if (v101.clone() == v0.clone()) if (v102.clone() == (v0.clone() + 2)), r2(v1), r6(v103, v104) if (v103.clone() == v1.clone()) if (v104.clone() == (v1.clone() + 2));
-      r6(1, (std::cmp::min(std::cmp::max(v1.clone(), 0), 6) + 0)) <-- r2(v0) if (v0.clone() < 5), r2(v100) if (v100.clone() == v0.clone()), r6(v101, v102) if (v101.clone() == v0.clone()) if (v102.clone() == (v0.clone() + 2)), r2(v1), r6(v103, v104) if (v103.clone() == v1.clone()) if (v104.clone() == (v1.clone() + 2));
-      r6((std::cmp::min(std::cmp::max(v1.clone(), 0), 6) + 0), 2) <-- r2(v0) if (v0.clone() < 5), r2(v100) if (v100.clone() == v0.clone()), r6(v101, v102) if (v101.clone() == v0.clone()) if (v102.clone() == (v0.clone() + 2)), r2(v1), r6(v103, v104) if (v103.clone() == v1.clone()) if (v104.clone() == (v1.clone() + 2));
-      r5(v1, v0) <-- r2(v0) if (v0.clone() < 5), r2(v100) if (v100.clone() == v0.clone()), r6(v101, v102) if (v101.clone() == v0.clone()) if (v102.clone() == (v0.clone() + 2)), r2(v1), r6(v103, v104) if (v103.clone() == v1.clone()) if (v104.clone() == (v1.clone() + 2));
-      r6(1, std::cmp::min((v0.clone() + 1), 6)) <-- r5(v0, v106), r3(v105, v107, v108) if (v108.clone() == std::cmp::max(v0.clone(), 2)), if (v0.clone() <= v105.clone());
-      r6(std::cmp::min((v0.clone() + 1), 6), 2) <-- r5(v0, v106), r3(v105, v107, v108) if (v108.clone() == std::cmp::max(v0.clone(), 2)), if (v0.clone() <= v105.clone());
-      r7(v0, v1) <-- r6(v0, v109), r2(v1), r6(v110, v111) if (v110.clone() == v1.clone()) if (v111.clone() == (v1.clone() + 2)), r2(v2), r6(v112, v113) if (v112.clone() == v2.clone()) if (v113.clone() == (v2.clone() + 2));
-      r5(2, v2) <-- r7(v0, v118) if (v118.clone() == 3), r3(v114, v119, v1) if (v119.clone() == v0.clone()), r5(v115, v116), if (v1.clone() == 4), r2(v2);
-      r5(3, std::cmp::min(std::cmp::max(v2.clone(), 3), 6)) <-- r7(v0, v118) if (v118.clone() == 3), r3(v114, v119, v1) if (v119.clone() == v0.clone()), r5(v115, v116), if (v1.clone() == 4), r2(v2);
-      r6(1, (std::cmp::min(std::cmp::max(v2.clone(), 3), 6) + 0)) <-- r7(v0, v118) if (v118.clone() == 3), r3(v114, v119, v1) if (v119.clone() == v0.clone()), r5(v115, v116), if (v1.clone() == 4), r2(v2);
-      r6((std::cmp::min(std::cmp::max(v2.clone(), 3), 6) + 0), 2) <-- r7(v0, v118) if (v118.clone() == 3), r3(v114, v119, v1) if (v119.clone() == v0.clone()), r5(v115, v116), if (v1.clone() == 4), r2(v2);
-      r5(2, v2) <-- r7(v0, v120) if (v120.clone() == 3), r3(v114, v1, v121) if (v121.clone() == v0.clone()), r7(v122, v117), if (v1.clone() == 4), r2(v2);
-      r5(3, std::cmp::min(std::cmp::max(v2.clone(), 3), 6)) <-- r7(v0, v120) if (v120.clone() == 3), r3(v114, v1, v121) if (v121.clone() == v0.clone()), r7(v122, v117), if (v1.clone() == 4), r2(v2);
-      r6(1, (std::cmp::min(std::cmp::max(v2.clone(), 3), 6) + 0)) <-- r7(v0, v120) if (v120.clone() == 3), r3(v114, v1, v121) if (v121.clone() == v0.clone()), r7(v122, v117), if (v1.clone() == 4), r2(v2);
-      r6((std::cmp::min(std::cmp::max(v2.clone(), 3), 6) + 0), 2) <-- r7(v0, v120) if (v120.clone() == 3), r3(v114, v1, v121) if (v121.clone() == v0.clone()), r7(v122, v117), if (v1.clone() == 4), r2(v2);
-      r5(2, v2) <-- r3(v0, v124, v1) if (v124.clone() == v0.clone()) if (v1.clone() <= 1), r5(v2, v125), r3(v123, v126, v127) if (v127.clone() == std::cmp::max(v2.clone(), 2)), if (v2.clone() <= v123.clone());
-      r5(3, std::cmp::min((v1.clone() + v1.clone()), 6)) <-- r3(v0, v124, v1) if (v124.clone() == v0.clone()) if (v1.clone() <= 1), r5(v2, v125), r3(v123, v126, v127) if (v127.clone() == std::cmp::max(v2.clone(), 2)), if (v2.clone() <= v123.clone());
-      r6(1, (std::cmp::min((v1.clone() + v1.clone()), 6) + 0)) <-- r3(v0, v124, v1) if (v124.clone() == v0.clone()) if (v1.clone() <= 1), r5(v2, v125), r3(v123, v126, v127) if (v127.clone() == std::cmp::max(v2.clone(), 2)), if (v2.clone() <= v123.clone());
-      r6((std::cmp::min((v1.clone() + v1.clone()), 6) + 0), 2) <-- r3(v0, v124, v1) if (v124.clone() == v0.clone()) if (v1.clone() <= 1), r5(v2, v125), r3(v123, v126, v127) if (v127.clone() == std::cmp::max(v2.clone(), 2)), if (v2.clone() <= v123.clone());
-      r6(v2, v0) <-- r3(v0, v124, v1) if (v124.clone() == v0.clone()) if (v1.clone() <= 1), r5(v2, v125), r3(v123, v126, v127) if (v127.clone() == std::cmp::max(v2.clone(), 2)), if (v2.clone() <= v123.clone());
-      r7(v1, 3) <-- r2(v0) if (v0.clone() == 3), r5(v1, v129), r3(v128, v130, v131) if (v131.clone() == std::cmp::max(v1.clone(), 2)), if (v1.clone() <= v128.clone());
-      r7(v1, 3) <-- r2(v0) if (v0.clone() == 3), r3(v2, v132, v1) if (v132.clone() == (v0.clone() + 2));
-      r6(1, 0);
-      r6(0, 2);
+      relation r4(i64, i64);
+      relation r5(i64);
+      relation r6(i64, i64, i64);
+      relation r7(i64, i64, i64);
+      relation r8(i64, i64);
+      r7(v1, (v1.clone() + 1), v1) <-- r0(v0, v103) if (v103.clone() == (v0.clone() + 0)), r1(v104, v100) if (v104.clone() == v0.clone()), if (v0.clone() < 0), r3(v101, v105, v102) if (v105.clone() == v0.clone()), if (v0.clone() <= 0), r5(v1), if (v1.clone() < 5);
+      r7(v1, (v1.clone() + 1), v1) <-- r0(v0, v106) if (v106.clone() == (v0.clone() + 0)), r1(v107, v100) if (v107.clone() == v0.clone()), if (v0.clone() <= 0), r5(v1), if (v1.clone() < 5);
+      r7(v0, 3, v0) <-- r4(v0, v108) if (v108.clone() == v0.clone()), if (v0.clone() <= 1);
+      r7(std::cmp::min(std::cmp::min(v0.clone(), 1), 6), v2, std::cmp::min(std::cmp::min(v0.clone(), 1), 6)) <-- r7(v0, v115, v116) if (v115.clone() == std::cmp::min(v0.clone(), 1)) if (v116.clone() == v0.clone()) if (v0.clone() != 0), r1(v1, v109), if (v1.clone() < 0), r3(v110, v117, v111) if (v117.clone() == v0.clone()), if (v0.clone() <= 0), r1(v2, v112), if (v2.clone() < 0), r3(v113, v118, v114) if (v118.clone() == v0.clone()), if (v0.clone() <= 0), if (v1.clone() < 5), if (v1.clone() < 5);
+      r7(std::cmp::min(std::cmp::min(v0.clone(), 1), 6), 0, std::cmp::min(std::cmp::min(v0.clone(), 1), 6)) <-- r7(v0, v115, v116) if (v115.clone() == std::cmp::min(v0.clone(), 1)) if (v116.clone() == v0.clone()) if (v0.clone() != 0), r1(v1, v109), if (v1.clone() < 0), r3(v110, v117, v111) if (v117.clone() == v0.clone()), if (v0.clone() <= 0), r1(v2, v112), if (v2.clone() < 0), r3(v113, v118, v114) if (v118.clone() == v0.clone()), if (v0.clone() <= 0), if (v1.clone() < 5), if (v1.clone() < 5);
+      r6((v1.clone() + 1), (v1.clone() + 1), v0) <-- r7(v0, v115, v116) if (v115.clone() == std::cmp::min(v0.clone(), 1)) if (v116.clone() == v0.clone()) if (v0.clone() != 0), r1(v1, v109), if (v1.clone() < 0), r3(v110, v117, v111) if (v117.clone() == v0.clone()), if (v0.clone() <= 0), r1(v2, v112), if (v2.clone() < 0), r3(v113, v118, v114) if (v118.clone() == v0.clone()), if (v0.clone() <= 0), if (v1.clone() < 5), if (v1.clone() < 5);
+      r7(std::cmp::min(std::cmp::min(v0.clone(), 1), 6), v2, std::cmp::min(std::cmp::min(v0.clone(), 1), 6)) <-- r7(v0, v119, v120) if (v119.clone() == std::cmp::min(v0.clone(), 1)) if (v120.clone() == v0.clone()) if (v0.clone() != 0), r1(v1, v109), if (v1.clone() < 0), r3(v110, v121, v111) if (v121.clone() == v0.clone()), if (v0.clone() <= 0), r1(v2, v112), if (v0.clone() <= 0), if (v1.clone() < 5), if (v1.clone() < 5);
+      r7(std::cmp::min(std::cmp::min(v0.clone(), 1), 6), 0, std::cmp::min(std::cmp::min(v0.clone(), 1), 6)) <-- r7(v0, v119, v120) if (v119.clone() == std::cmp::min(v0.clone(), 1)) if (v120.clone() == v0.clone()) if (v0.clone() != 0), r1(v1, v109), if (v1.clone() < 0), r3(v110, v121, v111) if (v121.clone() == v0.clone()), if (v0.clone() <= 0), r1(v2, v112), if (v0.clone() <= 0), if (v1.clone() < 5), if (v1.clone() < 5);
+      r6((v1.clone() + 1), (v1.clone() + 1), v0) <-- r7(v0, v119, v120) if (v119.clone() == std::cmp::min(v0.clone(), 1)) if (v120.clone() == v0.clone()) if (v0.clone() != 0), r1(v1, v109), if (v1.clone() < 0), r3(v110, v121, v111) if (v121.clone() == v0.clone()), if (v0.clone() <= 0), r1(v2, v112), if (v0.clone() <= 0), if (v1.clone() < 5), if (v1.clone() < 5);
+      r7(std::cmp::min(std::cmp::min(v0.clone(), 1), 6), v2, std::cmp::min(std::cmp::min(v0.clone(), 1), 6)) <-- r7(v0, v122, v123) if (v122.clone() == std::cmp::min(v0.clone(), 1)) if (v123.clone() == v0.clone()) if (v0.clone() != 0), r1(v1, v109), if (v0.clone() <= 0), r1(v2, v112), if (v2.clone() < 0), r3(v113, v124, v114) if (v124.clone() == v0.clone()), if (v0.clone() <= 0), if (v1.clone() < 5), if (v1.clone() < 5);
+      r7(std::cmp::min(std::cmp::min(v0.clone(), 1), 6), 0, std::cmp::min(std::cmp::min(v0.clone(), 1), 6)) <-- r7(v0, v122, v123) if (v122.clone() == std::cmp::min(v0.clone(), 1)) if (v123.clone() == v0.clone()) if (v0.clone() != 0), r1(v1, v109), if (v0.clone() <= 0), r1(v2, v112), if (v2.clone() < 0), r3(v113, v124, v114) if (v124.clone() == v0.clone()), if (v0.clone() <= 0), if (v1.clone() < 5), if (v1.clone() < 5);
+      r6((v1.clone() + 1), (v1.clone() + 1), v0) <-- r7(v0, v122, v123) if (v122.clone() == std::cmp::min(v0.clone(), 1)) if (v123.clone() == v0.clone()) if (v0.clone() != 0), r1(v1, v109), if (v0.clone() <= 0), r1(v2, v112), if (v2.clone() < 0), r3(v113, v124, v114) if (v124.clone() == v0.clone()), if (v0.clone() <= 0), if (v1.clone() < 5), if (v1.clone() < 5);
+      r7(std::cmp::min(std::cmp::min(v0.clone(), 1), 6), v2, std::cmp::min(std::cmp::min(v0.clone(), 1), 6)) <-- r7(v0, v125, v126) if (v125.clone() == std::cmp::min(v0.clone(), 1)) if (v126.clone() == v0.clone()) if (v0.clone() != 0), r1(v1, v109), if (v0.clone() <= 0), r1(v2, v112), if (v0.clone() <= 0), if (v1.clone() < 5), if (v1.clone() < 5);
+      r7(std::cmp::min(std::cmp::min(v0.clone(), 1), 6), 0, std::cmp::min(std::cmp::min(v0.clone(), 1), 6)) <-- r7(v0, v125, v126) if (v125.clone() == std::cmp::min(v0.clone(), 1)) if (v126.clone() == v0.clone()) if (v0.clone() != 0), r1(v1, v109), if (v0.clone() <= 0), r1(v2, v112), if (v0.clone() <= 0), if (v1.clone() < 5), if (v1.clone() < 5);
+      r6((v1.clone() + 1), (v1.clone() + 1), v0) <-- r7(v0, v125, v126) if (v125.clone() == std::cmp::min(v0.clone(), 1)) if (v126.clone() == v0.clone()) if (v0.clone() != 0), r1(v1, v109), if (v0.clone() <= 0), r1(v2, v112), if (v0.clone() <= 0), if (v1.clone() < 5), if (v1.clone() < 5);
+      r6(1, v1, v3) <-- r5(v0), r1(v1, v127), if (v1.clone() < 0), r3(v128, v133, v129) if (v133.clone() == v0.clone()), if (v0.clone() <= 0), r1(v3, v130), if (v3.clone() < 0), r3(v131, v134, v132) if (v134.clone() == v0.clone()), if (v0.clone() <= 0);
+      r6(1, v1, v3) <-- r5(v0), r1(v1, v127), if (v1.clone() < 0), r3(v128, v135, v129) if (v135.clone() == v0.clone()), if (v0.clone() <= 0), r1(v3, v130), if (v0.clone() <= 0);
+      r6(1, v1, v3) <-- r5(v0), r1(v1, v127), if (v0.clone() <= 0), r1(v3, v130), if (v3.clone() < 0), r3(v131, v136, v132) if (v136.clone() == v0.clone()), if (v0.clone() <= 0);
+      r6(1, v1, v3) <-- r5(v0), r1(v1, v127), if (v0.clone() <= 0), r1(v3, v130), if (v0.clone() <= 0);
+      r6(1, v1, v3) <-- r5(v0), r0(v1, v137) if (v137.clone() == v1.clone()), r1(v3, v130), if (v3.clone() < 0), r3(v131, v138, v132) if (v138.clone() == v0.clone()), if (v0.clone() <= 0);
+      r6(1, v1, v3) <-- r5(v0), r0(v1, v139) if (v139.clone() == v1.clone()), r1(v3, v130), if (v0.clone() <= 0);
    }
    pub struct Inst { p: Prog, pool: Option<ascent::rayon::ThreadPool> }
    pub fn make(pool: Option<usize>) -> Box<dyn Driver> {
@@ -124,10 +111,11 @@ pub mod h5x {
          1 => { let v: Vec<(i64,Option<i64>,)> = parse_rows(rows)?; if append { self.p.r1.extend(v) } else { self.p.r1 = v } },
          2 => { let v: Vec<(i64,)> = parse_rows(rows)?; if append { self.p.r2.extend(v) } else { self.p.r2 = v } },
          3 => { let v: Vec<(i64,i64,i64,)> = parse_rows(rows)?; if append { self.p.r3.extend(v) } else { self.p.r3 = v } },
-         4 => { let v: Vec<(i64,)> = parse_rows(rows)?; if append { self.p.r4.extend(v) } else { self.p.r4 = v } },
-         5 => { let v: Vec<(i64,i64,)> = parse_rows(rows)?; if append { self.p.r5.extend(v) } else { self.p.r5 = v } },
-         6 => { let v: Vec<(i64,i64,)> = parse_rows(rows)?; if append { self.p.r6.extend(v) } else { self.p.r6 = v } },
-         7 => { let v: Vec<(i64,i64,)> = parse_rows(rows)?; if append { self.p.r7.extend(v) } else { self.p.r7 = v } },
+         4 => { let v: Vec<(i64,i64,)> = parse_rows(rows)?; if append { self.p.r4.extend(v) } else { self.p.r4 = v } },
+         5 => { let v: Vec<(i64,)> = parse_rows(rows)?; if append { self.p.r5.extend(v) } else { self.p.r5 = v } },
+         6 => { let v: Vec<(i64,i64,i64,)> = parse_rows(rows)?; if append { self.p.r6.extend(v) } else { self.p.r6 = v } },
+         7 => { let v: Vec<(i64,i64,i64,)> = parse_rows(rows)?; if append { self.p.r7.extend(v) } else { self.p.r7 = v } },
+         8 => { let v: Vec<(i64,i64,)> = parse_rows(rows)?; if append { self.p.r8.extend(v) } else { self.p.r8 = v } },
             _ => return None,
          }
          Some(())
@@ -135,7 +123,7 @@ pub mod h5x {
       fn run(&mut self) { match &self.pool { Some(pl) => { let p = &mut self.p; pl.install(|| p.run()) }, None => self.p.run() } }
       fn run_here(&mut self) { self.p.run() }
       fn run_timeout(&mut self, k: usize) -> Option<bool> { let _ = k; None }
-      fn dump(&self) -> String { vec![dump_rel(0, self.p.r0.iter().map(Row::render).collect()), dump_rel(1, self.p.r1.iter().map(Row::render).collect()), dump_rel(2, self.p.r2.iter().map(Row::render).collect()), dump_rel(3, self.p.r3.iter().map(Row::render).collect()), dump_rel(4, self.p.r4.iter().map(Row::render).collect()), dump_rel(5, self.p.r5.iter().map(Row::render).collect()), dump_rel(6, self.p.r6.iter().map(Row::render).collect()), dump_rel(7, self.p.r7.iter().map(Row::render).collect())].join(" | ") }
+      fn dump(&self) -> String { vec![dump_rel(0, self.p.r0.iter().map(Row::render).collect()), dump_rel(1, self.p.r1.iter().map(Row::render).collect()), dump_rel(2, self.p.r2.iter().map(Row::render).collect()), dump_rel(3, self.p.r3.iter().map(Row::render).collect()), dump_rel(4, self.p.r4.iter().map(Row::render).collect()), dump_rel(5, self.p.r5.iter().map(Row::render).collect()), dump_rel(6, self.p.r6.iter().map(Row::render).collect()), dump_rel(7, self.p.r7.iter().map(Row::render).collect()), dump_rel(8, self.p.r8.iter().map(Row::render).collect())].join(" | ") }
       fn iters(&self) -> String { format!("iters {}", self.p.scc_iters.iter().map(|x| x.to_string()).collect::<Vec<_>>().join(" ")) }
    }
 }
@@ -152,21 +140,21 @@ pub mod h9x {
       relation r1(i64, Option<i64>);
       relation r2(i64);
       relation r3(i64, i64, i64);
-      relation r4(i64);
+      relation r4(i64, i64);
       relation r5(i64, i64);
       relation r6(i64);
-      relation r7(i64, i64);
+      relation r7(i64, Option<i64>);
       relation r8(i64, i64);
-      r6(v1) <-- r2(v0), r0(v1, v108) if (v108.clone() == v0.clone()), r3(v100, v109, v101) if (v109.clone() == std::cmp::min(v100.clone(), 2)), r1(v102, v110) if let Some(v103) = v110.clone(), agg () = not() in r3(v102.clone(), _, _), if (v102.clone() == 2), if (v102.clone() < 5), r0(v2, v111) if (v111.clone() == v1.clone()), r3(v104, v112, v105) if (v112.clone() == std::cmp::min(v104.clone(), 2)), r1(v106, v113) if let Some(v107) = v113.clone(), agg () = not() in r3(v106.clone(), _, _), if (v106.clone() == 2), if (v106.clone() < 5);
-      r6(v2) <-- r7(v0, v116) if (v116.clone() == 1), r1(v1, v117) if let Some(v114) = v117.clone(), agg () = not() in r3(v1.clone(), _, _), if (v1.clone() == 2), r1(v2, v118) if let Some(v115) = v118.clone(), agg () = not() in r3(v2.clone(), _, _), if (v2.clone() == 2);
-      r8(std::cmp::min(std::cmp::max(v0.clone(), 0), 6), 3) <-- r2(v120), r1(v0, v121) if let Some(v119) = v121.clone(), agg () = not() in r3(v0.clone(), _, _), if (v0.clone() == 2);
-      r8(std::cmp::min(std::cmp::max(v0.clone(), 0), 6), 3) <-- r2(v122), r0(v2, v0);
-      r8(std::cmp::min((v1.clone() + 0), 6), 3) <-- r7(v128, v0) if (v128.clone() == 2), r1(v1, v123), r1(v129, v130) if (v129.clone() == v1.clone()) if (v130.clone() == v123.clone()), r0(v131, v132) if (v131.clone() == v1.clone()) if (v132.clone() == v1.clone()), r3(v124, v133, v125) if (v133.clone() == std::cmp::min(v124.clone(), 2)), r1(v126, v134) if let Some(v127) = v134.clone(), agg () = not() in r3(v126.clone(), _, _), if (v126.clone() == 2), if (v126.clone() < 5), if (v1.clone() == 3);
-      r6(1) <-- r7(v128, v0) if (v128.clone() == 2), r1(v1, v123), r1(v129, v130) if (v129.clone() == v1.clone()) if (v130.clone() == v123.clone()), r0(v131, v132) if (v131.clone() == v1.clone()) if (v132.clone() == v1.clone()), r3(v124, v133, v125) if (v133.clone() == std::cmp::min(v124.clone(), 2)), r1(v126, v134) if let Some(v127) = v134.clone(), agg () = not() in r3(v126.clone(), _, _), if (v126.clone() == 2), if (v126.clone() < 5), if (v1.clone() == 3);
-      r7(v0, 0) <-- r2(v0) if (v0.clone() < 2) let v1 = std::cmp::min(std::cmp::max(v0.clone(), 2), 6), r0(v139, v140) if (v139.clone() == v0.clone()) if (v140.clone() == v1.clone()), r3(v135, v141, v136) if (v141.clone() == std::cmp::min(v135.clone(), 2)), r1(v137, v142) if let Some(v138) = v142.clone(), agg () = not() in r3(v137.clone(), _, _), if (v137.clone() == 2), if (v137.clone() < 5), r5(v3, v2);
-      r7(v0, (v0.clone() + 1)) <-- r4(v0), r1(v144, v145) if (v144.clone() == v0.clone()) if let Some(v143) = v145.clone(), agg () = not() in r3(v0.clone(), _, _), if (v0.clone() == 2), if (v0.clone() < 5);
-      r5(1, v0) <-- r2(v0);
-      r8(2, 3);
+      r8(v2, v0) <-- r5(v0, v110) if (v110.clone() == 1) if (v0.clone() != 3), r3(v100, v1, v2), r3(v102, v111, v101) if (v111.clone() == std::cmp::max(v102.clone(), 3)), r4(v103, v112) if (v112.clone() == 0), if (v101.clone() < 1), let v104 = std::cmp::min(std::cmp::min(v101.clone(), 1), 6), if (v104.clone() == v103.clone()), r3(v105, v3, v113) if (v113.clone() == v2.clone()), r3(v107, v114, v106) if (v114.clone() == std::cmp::max(v107.clone(), 3)), r4(v108, v115) if (v115.clone() == 0), if (v106.clone() < 1), let v109 = std::cmp::min(std::cmp::min(v106.clone(), 1), 6), if (v109.clone() == v108.clone());
+      r7(2, Some(v0.clone())) <-- r8(v0, v1), r3(v116, v122, v2) if (v122.clone() == std::cmp::max(v116.clone(), 3)), r4(v117, v123) if (v123.clone() == 0), if (v2.clone() < 1), let v118 = std::cmp::min(std::cmp::min(v2.clone(), 1), 6), if (v118.clone() == v117.clone()), r3(v119, v124, v125) if (v124.clone() == std::cmp::max(v119.clone(), 3)) if (v125.clone() == v0.clone()), r4(v120, v126) if (v126.clone() == 0), if (v0.clone() < 1), let v121 = std::cmp::min(std::cmp::min(v0.clone(), 1), 6), if (v121.clone() == v120.clone());
+      r7(v0, Some(v0.clone())) <-- r8(v0, v1), r3(v116, v122, v2) if (v122.clone() == std::cmp::max(v116.clone(), 3)), r4(v117, v123) if (v123.clone() == 0), if (v2.clone() < 1), let v118 = std::cmp::min(std::cmp::min(v2.clone(), 1), 6), if (v118.clone() == v117.clone()), r3(v119, v124, v125) if (v124.clone() == std::cmp::max(v119.clone(), 3)) if (v125.clone() == v0.clone()), r4(v120, v126) if (v126.clone() == 0), if (v0.clone() < 1), let v121 = std::cmp::min(std::cmp::min(v0.clone(), 1), 6), if (v121.clone() == v120.clone());
+      r7(2, Some(v0.clone())) <-- r8(v0, v1), r7(v2, v127) if (v127.clone() == None::<i64>), r3(v119, v128, v129) if (v128.clone() == std::cmp::max(v119.clone(), 3)) if (v129.clone() == v0.clone()), r4(v120, v130) if (v130.clone() == 0), if (v0.clone() < 1), let v121 = std::cmp::min(std::cmp::min(v0.clone(), 1), 6), if (v121.clone() == v120.clone());
+      r7(v0, Some(v0.clone())) <-- r8(v0, v1), r7(v2, v127) if (v127.clone() == None::<i64>), r3(v119, v128, v129) if (v128.clone() == std::cmp::max(v119.clone(), 3)) if (v129.clone() == v0.clone()), r4(v120, v130) if (v130.clone() == 0), if (v0.clone() < 1), let v121 = std::cmp::min(std::cmp::min(v0.clone(), 1), 6), if (v121.clone() == v120.clone());
+      r7(std::cmp::min((v1.clone() + v1.clone()), 6), Some(3)) <-- r5(v0, v134) if (v134.clone() == v0.clone()) if (v0.clone() == 3), r3(v131, v135, v1) if (v135.clone() == std::cmp::max(v131.clone(), 3)), r4(v132, v136) if (v136.clone() == 0), if (v1.clone() < 1), let v133 = std::cmp::min(std::cmp::min(v1.clone(), 1), 6), if (v133.clone() == v132.clone());
+      r8(std::cmp::min((v1.clone() + v1.clone()), 6), std::cmp::min((v1.clone() + v1.clone()), 6)) <-- r5(v0, v134) if (v134.clone() == v0.clone()) if (v0.clone() == 3), r3(v131, v135, v1) if (v135.clone() == std::cmp::max(v131.clone(), 3)), r4(v132, v136) if (v136.clone() == 0), if (v1.clone() < 1), let v133 = std::cmp::min(std::cmp::min(v1.clone(), 1), 6), if (v133.clone() == v132.clone());
+      r7((v2.clone() + 1), Some(v1.clone())) <-- r8(v142, v0) if (v0.clone() <= 1), r3(v137, v1, v2), r3(v139, v143, v138) if (v143.clone() == std::cmp::max(v139.clone(), 3)), r4(v140, v144) if (v144.clone() == 0), if (v138.clone() < 1), let v141 = std::cmp::min(std::cmp::min(v138.clone(), 1), 6), if (v141.clone() == v140.clone()), if (v2.clone() < 5);
+      r7(2, Some(3));
+      r8(2, 2);
    }
    pub struct Inst { p: Prog, pool: Option<ascent::rayon::ThreadPool> }
    pub fn make(pool: Option<usize>) -> Box<dyn Driver> {
@@ -181,10 +169,10 @@ pub mod h9x {
          1 => { let v: Vec<(i64,Option<i64>,)> = parse_rows(rows)?; if append { self.p.r1.extend(v) } else { self.p.r1 = v } },
          2 => { let v: Vec<(i64,)> = parse_rows(rows)?; if append { self.p.r2.extend(v) } else { self.p.r2 = v } },
          3 => { let v: Vec<(i64,i64,i64,)> = parse_rows(rows)?; if append { self.p.r3.extend(v) } else { self.p.r3 = v } },
-         4 => { let v: Vec<(i64,)> = parse_rows(rows)?; if append { self.p.r4.extend(v) } else { self.p.r4 = v } },
+         4 => { let v: Vec<(i64,i64,)> = parse_rows(rows)?; if append { self.p.r4.extend(v) } else { self.p.r4 = v } },
          5 => { let v: Vec<(i64,i64,)> = parse_rows(rows)?; if append { self.p.r5.extend(v) } else { self.p.r5 = v } },
          6 => { let v: Vec<(i64,)> = parse_rows(rows)?; if append { self.p.r6.extend(v) } else { self.p.r6 = v } },
-         7 => { let v: Vec<(i64,i64,)> = parse_rows(rows)?; if append { self.p.r7.extend(v) } else { self.p.r7 = v } },
+         7 => { let v: Vec<(i64,Option<i64>,)> = parse_rows(rows)?; if append { self.p.r7.extend(v) } else { self.p.r7 = v } },
          8 => { let v: Vec<(i64,i64,)> = parse_rows(rows)?; if append { self.p.r8.extend(v) } else { self.p.r8 = v } },
             _ => return None,
          }
@@ -199,7 +187,63 @@ pub mod h9x {
 }
 
 #[allow(unused, non_snake_case, clippy::all)]
-pub mod a1x {
+pub mod h13x {
+   use ascent::*;
+   use ascent::aggregators::*;
+   use ascent::lattice::{Dual, set::Set};
+   use crate::common::*;
+   ascent! {
+      pub struct Prog;
+      relation r0(i64, i64);
+      relation r1(i64, Option<i64>);
+      relation r2(i64);
+      relation r3(i64, i64, i64);
+      relation r4(i64, Option<i64>);
+      relation r5(i64, i64, i64);
+      relation r6(i64);
+      r5(v1, v0, v1) <-- r2(v0) if (v0.clone() < 4), r3(v100, v1, v101) if (v100.clone() == 0) if (v101.clone() == v0.clone()), r2(v102) if (v102.clone() == v1.clone()), if (v0.clone() == 5);
+      r5(v1, v0, v1) <-- r2(v0) if (v0.clone() < 4), r6(v1);
+      r6(v0) <-- r1(v107, v108) if (v107.clone() == 3) if let Some(v0) = v108.clone() if (v0.clone() == 1), r0(v103, v1), r3(v109, v104, v110) if (v109.clone() == 0) if (v110.clone() == v103.clone()), r2(v111) if (v111.clone() == v104.clone()), if (v103.clone() == 5), if (v104.clone() <= 3), r0(v105, v112) if (v112.clone() == v1.clone()), r3(v113, v106, v114) if (v113.clone() == 0) if (v114.clone() == v105.clone()), r2(v115) if (v115.clone() == v106.clone()), if (v105.clone() == 5), if (v106.clone() <= 3);
+      r6(v0) <-- r1(v107, v108) if (v107.clone() == 3) if let Some(v0) = v108.clone() if (v0.clone() == 1), r0(v103, v1), r3(v109, v104, v110) if (v109.clone() == 0) if (v110.clone() == v103.clone()), r2(v111) if (v111.clone() == v104.clone()), if (v103.clone() == 5), if (v104.clone() <= 3), r0(v105, v112) if (v112.clone() == v1.clone()), r3(v113, v106, v114) if (v113.clone() == 0) if (v114.clone() == v105.clone()), r2(v115) if (v115.clone() == v106.clone()), if (v105.clone() == 5), if (v106.clone() <= 3);
+      r6((v0.clone() + 0)) <-- r1(v107, v108) if (v107.clone() == 3) if let Some(v0) = v108.clone() if (v0.clone() == 1), r0(v103, v1), r3(v109, v104, v110) if (v109.clone() == 0) if (v110.clone() == v103.clone()), r2(v111) if (v111.clone() == v104.clone()), if (v103.clone() == 5), if (v104.clone() <= 3), r0(v105, v112) if (v112.clone() == v1.clone()), r3(v113, v106, v114) if (v113.clone() == 0) if (v114.clone() == v105.clone()), r2(v115) if (v115.clone() == v106.clone()), if (v105.clone() == 5), if (v106.clone() <= 3);
+      r6((v0.clone() + 1)) <-- r0(v116, v0), r3(v118, v117, v119) if (v118.clone() == 0) if (v119.clone() == v116.clone()), r2(v120) if (v120.clone() == v117.clone()), if (v116.clone() == 5), if (v117.clone() <= 3), if (v0.clone() < 5);
+      r6(v1) <-- r3(v0, v123, v1) if (v123.clone() == 0), r0(v121, v2), r3(v124, v122, v125) if (v124.clone() == 0) if (v125.clone() == v121.clone()), r2(v126) if (v126.clone() == v122.clone()), if (v121.clone() == 5), if (v122.clone() <= 3);
+      r6(std::cmp::min(std::cmp::max(v0.clone(), 1), 6)) <-- r6(v0), r0(v127, v1), r3(v131, v128, v132) if (v131.clone() == 0) if (v132.clone() == v127.clone()), r2(v133) if (v133.clone() == v128.clone()), if (v127.clone() == 5), if (v128.clone() <= 3), r0(v129, v3), r3(v134, v130, v135) if (v134.clone() == 0) if (v135.clone() == v129.clone()), r2(v136) if (v136.clone() == v130.clone()), if (v129.clone() == 5), if (v130.clone() <= 3);
+      r5(v3, 0, v0) <-- r6(v0), r0(v127, v1), r3(v131, v128, v132) if (v131.clone() == 0) if (v132.clone() == v127.clone()), r2(v133) if (v133.clone() == v128.clone()), if (v127.clone() == 5), if (v128.clone() <= 3), r0(v129, v3), r3(v134, v130, v135) if (v134.clone() == 0) if (v135.clone() == v129.clone()), r2(v136) if (v136.clone() == v130.clone()), if (v129.clone() == 5), if (v130.clone() <= 3);
+      r6(std::cmp::min(std::cmp::max(v0.clone(), 1), 6)) <-- r6(v0), r4(v1, v137) if (v0.clone() <= 4), r0(v129, v3), r3(v138, v130, v139) if (v138.clone() == 0) if (v139.clone() == v129.clone()), r2(v140) if (v140.clone() == v130.clone()), if (v129.clone() == 5), if (v130.clone() <= 3);
+      r5(v3, 0, v0) <-- r6(v0), r4(v1, v137) if (v0.clone() <= 4), r0(v129, v3), r3(v138, v130, v139) if (v138.clone() == 0) if (v139.clone() == v129.clone()), r2(v140) if (v140.clone() == v130.clone()), if (v129.clone() == 5), if (v130.clone() <= 3);
+      r4((v0.clone() + 1), Some(v0.clone())) <-- r2(v0), if (v0.clone() < 5);
+   }
+   pub struct Inst { p: Prog, pool: Option<ascent::rayon::ThreadPool> }
+   pub fn make(pool: Option<usize>) -> Box<dyn Driver> {
+      let pool = pool.map(|n| ascent::rayon::ThreadPoolBuilder::new().num_threads(n).build().unwrap());
+      let p = match &pool { Some(pl) => pl.install(|| Default::default()), None => Default::default() };
+      Box::new(Inst { p, pool })
+   }
+   impl Driver for Inst {
+      fn load(&mut self, rel: usize, rows: &[Sexp], append: bool) -> Option<()> {
+         match rel {
+         0 => { let v: Vec<(i64,i64,)> = parse_rows(rows)?; if append { self.p.r0.extend(v) } else { self.p.r0 = v } },
+         1 => { let v: Vec<(i64,Option<i64>,)> = parse_rows(rows)?; if append { self.p.r1.extend(v) } else { self.p.r1 = v } },
+         2 => { let v: Vec<(i64,)> = parse_rows(rows)?; if append { self.p.r2.extend(v) } else { self.p.r2 = v } },
+         3 => { let v: Vec<(i64,i64,i64,)> = parse_rows(rows)?; if append { self.p.r3.extend(v) } else { self.p.r3 = v } },
+         4 => { let v: Vec<(i64,Option<i64>,)> = parse_rows(rows)?; if append { self.p.r4.extend(v) } else { self.p.r4 = v } },
+         5 => { let v: Vec<(i64,i64,i64,)> = parse_rows(rows)?; if append { self.p.r5.extend(v) } else { self.p.r5 = v } },
+         6 => { let v: Vec<(i64,)> = parse_rows(rows)?; if append { self.p.r6.extend(v) } else { self.p.r6 = v } },
+            _ => return None,
+         }
+         Some(())
+      }
+      fn run(&mut self) { match &self.pool { Some(pl) => { let p = &mut self.p; pl.install(|| p.run()) }, None => self.p.run() } }
+      fn run_here(&mut self) { self.p.run() }
+      fn run_timeout(&mut self, k: usize) -> Option<bool> { let _ = k; None }
+      fn dump(&self) -> String { vec![dump_rel(0, self.p.r0.iter().map(Row::render).collect()), dump_rel(1, self.p.r1.iter().map(Row::render).collect()), dump_rel(2, self.p.r2.iter().map(Row::render).collect()), dump_rel(3, self.p.r3.iter().map(Row::render).collect()), dump_rel(4, self.p.r4.iter().map(Row::render).collect()), dump_rel(5, self.p.r5.iter().map(Row::render).collect()), dump_rel(6, self.p.r6.iter().map(Row::render).collect())].join(" | ") }
+      fn iters(&self) -> String { format!("iters {}", self.p.scc_iters.iter().map(|x| x.to_string()).collect::<Vec<_>>().join(" ")) }
+   }
+}
+
+#[allow(unused, non_snake_case, clippy::all)]
+pub mod a3x {
    use ascent::*;
    use ascent::aggregators::*;
    use ascent::lattice::{Dual, set::Set};
@@ -210,7 +254,47 @@ pub mod a1x {
       relation r1(i64);
       relation r2(i64, i64);
       relation r3(i64);
-      r2(v0, v1) <-- r1(v0), r0(v100, v1) if (1 < v1.clone());
+      r2(v0, v2) <-- r1(v0), r1(v100), r0(v101, v2) if (v101.clone() != 0);
+      r3(v0) <-- r2(v0, v102);
+   }
+   pub struct Inst { p: Prog, pool: Option<ascent::rayon::ThreadPool> }
+   pub fn make(pool: Option<usize>) -> Box<dyn Driver> {
+      let pool = pool.map(|n| ascent::rayon::ThreadPoolBuilder::new().num_threads(n).build().unwrap());
+      let p = match &pool { Some(pl) => pl.install(|| Default::default()), None => Default::default() };
+      Box::new(Inst { p, pool })
+   }
+   impl Driver for Inst {
+      fn load(&mut self, rel: usize, rows: &[Sexp], append: bool) -> Option<()> {
+         match rel {
+         0 => { let v: Vec<(i64,i64,)> = parse_rows(rows)?; if append { self.p.r0.extend(v) } else { self.p.r0 = v } },
+         1 => { let v: Vec<(i64,)> = parse_rows(rows)?; if append { self.p.r1.extend(v) } else { self.p.r1 = v } },
+         2 => { let v: Vec<(i64,i64,)> = parse_rows(rows)?; if append { self.p.r2.extend(v) } else { self.p.r2 = v } },
+         3 => { let v: Vec<(i64,)> = parse_rows(rows)?; if append { self.p.r3.extend(v) } else { self.p.r3 = v } },
+            _ => return None,
+         }
+         Some(())
+      }
+      fn run(&mut self) { match &self.pool { Some(pl) => { let p = &mut self.p; pl.install(|| p.run()) }, None => self.p.run() } }
+      fn run_here(&mut self) { self.p.run() }
+      fn run_timeout(&mut self, k: usize) -> Option<bool> { let _ = k; None }
+      fn dump(&self) -> String { vec![dump_rel(0, self.p.r0.iter().map(Row::render).collect()), dump_rel(1, self.p.r1.iter().map(Row::render).collect()), dump_rel(2, self.p.r2.iter().map(Row::render).collect()), dump_rel(3, self.p.r3.iter().map(Row::render).collect())].join(" | ") }
+      fn iters(&self) -> String { format!("iters {}", self.p.scc_iters.iter().map(|x| x.to_string()).collect::<Vec<_>>().join(" ")) }
+   }
+}
+
+#[allow(unused, non_snake_case, clippy::all)]
+pub mod e3x {
+   use ascent::*;
+   use ascent::aggregators::*;
+   use ascent::lattice::{Dual, set::Set};
+   use crate::common::*;
+   ascent! {
+      pub struct Prog;
+      relation r0(i64, i64);
+      relation r1(i64);
+      relation r2(i64, i64);
+      relation r3(i64);
+      r2(v0, v1) <-- r1(v0), r0(v100, v1), if ((v100.clone() * (v0.clone() + 2)) < 4);
       r3(v0) <-- r2(v0, v101);
    }
    pub struct Inst { p: Prog, pool: Option<ascent::rayon::ThreadPool> }
@@ -239,47 +323,7 @@ pub mod a1x {
 }
 
 #[allow(unused, non_snake_case, clippy::all)]
-pub mod e1x {
-   use ascent::*;
-   use ascent::aggregators::*;
-   use ascent::lattice::{Dual, set::Set};
-   use crate::common::*;
-   ascent! {
-      pub struct Prog;
-      relation r0(i64, i64);
-      relation r1(i64);
-      relation r2(i64, i64);
-      relation r3(i64);
-      r2(v0, v1) <-- r1(v0), r0(v100, v1), if ((6 - (v0.clone() + 2)) < 8);
-      r3(v0) <-- r2(v0, v101);
-   }
-   pub struct Inst { p: Prog, pool: Option<ascent::rayon::ThreadPool> }
-   pub fn make(pool: Option<usize>) -> Box<dyn Driver> {
-      let pool = pool.map(|n| ascent::rayon::ThreadPoolBuilder::new().num_threads(n).build().unwrap());
-      let p = match &pool { Some(pl) => pl.install(|| Default::default()), None => Default::default() };
-      Box::new(Inst { p, pool })
-   }
-   impl Driver for Inst {
-      fn load(&mut self, rel: usize, rows: &[Sexp], append: bool) -> Option<()> {
-         match rel {
-         0 => { let v: Vec<(i64,i64,)> = parse_rows(rows)?; if append { self.p.r0.extend(v) } else { self.p.r0 = v } },
-         1 => { let v: Vec<(i64,)> = parse_rows(rows)?; if append { self.p.r1.extend(v) } else { self.p.r1 = v } },
-         2 => { let v: Vec<(i64,i64,)> = parse_rows(rows)?; if append { self.p.r2.extend(v) } else { self.p.r2 = v } },
-         3 => { let v: Vec<(i64,)> = parse_rows(rows)?; if append { self.p.r3.extend(v) } else { self.p.r3 = v } },
-            _ => return None,
-         }
-         Some(())
-      }
-      fn run(&mut self) { match &self.pool { Some(pl) => { let p = &mut self.p; pl.install(|| p.run()) }, None => self.p.run() } }
-      fn run_here(&mut self) { self.p.run() }
-      fn run_timeout(&mut self, k: usize) -> Option<bool> { let _ = k; None }
-      fn dump(&self) -> String { vec![dump_rel(0, self.p.r0.iter().map(Row::render).collect()), dump_rel(1, self.p.r1.iter().map(Row::render).collect()), dump_rel(2, self.p.r2.iter().map(Row::render).collect()), dump_rel(3, self.p.r3.iter().map(Row::render).collect())].join(" | ") }
-      fn iters(&self) -> String { format!("iters {}", self.p.scc_iters.iter().map(|x| x.to_string()).collect::<Vec<_>>().join(" ")) }
-   }
-}
-
-#[allow(unused, non_snake_case, clippy::all)]
-pub mod o0x {
+pub mod o2x {
    use ascent::*;
    use ascent::aggregators::*;
    use ascent::lattice::{Dual, set::Set};
@@ -290,7 +334,7 @@ pub mod o0x {
       relation r1(i64);
       relation r2(i64, i64);
       relation r3(i64);
-      r3(v0) <-- r1(v0), r0(v100, v101) if (v100.clone() == v0.clone()) if (v101.clone() == None::<i64>);
+      r3(v0) <-- r1(v0), r0(v101, v102) if (v101.clone() == v0.clone()) if let Some(v100) = v102.clone(), if (v100.clone() <= 3);
       r2(v0, v0) <-- r3(v0);
    }
    pub struct Inst { p: Prog, pool: Option<ascent::rayon::ThreadPool> }
@@ -319,5 +363,5 @@ pub mod o0x {
 }
 
 fn main() {
-   common::main_loop(&[("h1x", h1x::make as common::Factory), ("h5x", h5x::make as common::Factory), ("h9x", h9x::make as common::Factory), ("a1x", a1x::make as common::Factory), ("e1x", e1x::make as common::Factory), ("o0x", o0x::make as common::Factory)]);
+   common::main_loop(&[("h1x", h1x::make as common::Factory), ("h5x", h5x::make as common::Factory), ("h9x", h9x::make as common::Factory), ("h13x", h13x::make as common::Factory), ("a3x", a3x::make as common::Factory), ("e3x", e3x::make as common::Factory), ("o2x", o2x::make as common::Factory)]);
 }
